@@ -145,6 +145,13 @@ OPS_FULL = [
     # ItemSession.add_url(url) without properties builds)
     ('add', [(2, P(), None)]),
     ('add', [(1, P(level=2), None), (0, P(parent_url=U[1]), None)]),
+    # one batch naming the same URL more than once with *different* properties: the first
+    # occurrence decides (INSERT OR IGNORE row by row), the later ones are ignored
+    ('add', [(2, P(level=1, parent_url=U[0], root_url=U[0]), None),
+             (1, None, None),
+             (2, P(level=4, status='done', try_count=3, parent_url=U[1], root_url=U[1],
+                   priority=1), 'x=y'),
+             (1, P(level=2, status='error', parent_url=U[2], root_url=U[0]), None)]),
 ]
 OPS_REDUCED = [OPS_FULL[i] for i in (0, 1, 2, 4, 7, 8, 10, 11, 12, 13, 14, 16, 18, 22, 23, 25, 27, 28, 33,
                                      34, 35)]
